@@ -164,6 +164,6 @@ def run(ctx, report):
         n = 0
         for f in probe:
             n += D.all_impls(ctx, report, f, "probe", "C13.COMPOSE", label_prefix="probe:", only_kinds=("derive",), methods=("setup",))["derive"]
-        report.floor("C13.COMPOSE.DERIVE", "derive expansions (setup composition)", n, 15, config="probe")
+        report.floor("C13.COMPOSE.DERIVE", "derive expansions (setup composition)", n, 19, config="probe")
     except Exception as e:
         report.ob("C13.COMPOSE.DERIVE", "EXTRACT", False, "probe crate could not be analysed: %s" % str(e)[-300:])
